@@ -54,6 +54,27 @@ def jobs_for(tier, rng):
                 pi.append(job)
             else:
                 vi.append(job)
+    # degenerate shapes and limits: one state / action / event, all-zero rewards, gamma = 0, iteration limit 1
+    # (limit 0 is outside the properties - "positive limits" - and raises UnboundLocalError in the VI family)
+    from . import tabular as T
+    shapes = [(1, 1, 1), (1, 2, 1), (2, 1, 1), (1, 1, 2), (3, 1, 2), (1, 3, 3), (4, 2, 1)]
+    for k, (ns, na, ne) in enumerate(shapes if tier == "quick" else shapes * 4):
+        for kind in ("VI", "SAVI", "PI"):
+            m = T.random_mdp(rng, ns=ns, na=na, ne=ne, PD=1 if ne == 1 else 2, rmax=rng.choice([0, 2]),
+                             v0max=rng.choice([0, 3]), plain_render=rng.random() < 0.5)
+            gen.fix_dups(m)
+            job = {"mdp": m, "kind": kind, "gamma": rng.choice([[0, 1], [1, 2], [0, 1]]),
+                   "eps": [rng.choice([1, 3]), rng.choice([0, 2])], "test": rng.choice(["span", "max_diff"]),
+                   "calls": rng.choice([[1], [1, 4], [1, 1, 1], [30], [2, 30]]), "cert": True,
+                   "mbs": rng.choice([1, 2, 1024]), "tag": f"{kind}-degenerate{k}"}
+            if kind == "SAVI":
+                job["shuffle"] = rng.random() < 0.5
+                job["seed"] = rng.randrange(1000)
+            if kind == "PI":
+                job["max_eval_iter"] = rng.choice([1, 5])
+                pi.append(job)
+            else:
+                vi.append(job)
     return vi, pi
 
 
